@@ -529,8 +529,9 @@ def explore(hfn, params, modules, tier="quick", max_paths=2000, slow_s=60, valid
         if not aborted:
             kept.append((list(run.assumptions), list(run.pc), g.records, list(run.divs)))
             declared.update(g.declared)
-        if summary["assumptions_sat"] is None and not aborted:
-            # vacuity (a): the assumptions of the first complete path are satisfiable
+        if summary["assumptions_sat"] in (None, "unknown") and not aborted:
+            # vacuity (a): the assumptions of a complete path are satisfiable (the first path for which solver or witness
+            # search says so; a path guarded by an equality such as `r == 0` cannot be hit by a random witness)
             at = smt.Atomizer(run.context_terms())
             v, _, _ = solver.check(smt.print_smt(at.out + at.axioms), (), fast_ms=FAST_MS, slow_s=0, tag="assumptions-sat")
             if v == "unknown":
